@@ -104,10 +104,7 @@ make('M27-save-loop-without-filter',SP,OLD_SAVE,"""        saved = []
             sig = getattr(signal, name, None)
             saved.append((sig, signal.getsignal(sig)))
         self._saved_signals = saved""")
-make('M28-save-loop-reversed-order',SP,OLD_SAVE,"""        saved = []
-        for name in reversed(self._PRESERVED_SIGNALS):
-            sig = getattr(signal, name, None)
-            if sig:
-                saved.append((sig, signal.getsignal(sig)))
-        self._saved_signals = saved""")
+# (saving or restoring in the reverse order is NOT a near miss: every pair carries its own signal number and the preserved names are
+# distinct, so the order of the pairs is not observable; the recogniser nevertheless asks for the declared order, so such a rewrite
+# would alarm with no-failing-input-found)
 print(len(os.listdir(OUT)))
